@@ -272,6 +272,17 @@ IdMZI == \A k \in 0..7 :
               /\ \A r \in 1..9 : r \notin {2, 4} => m[r][4] = R0
 \* two photons, one per input, balanced interferometer with phi = pi: back to Hong-Ou-Mandel bunching never a coincidence
 IdMZIHom == \A k \in {0, 4} : MZI(k)[5][5] # R0 /\ MZI(k)[3][5] = R0 /\ MZI(k)[7][5] = R0
+\* more algebra: H, X are involutions; X and Z anticommute; CZ is symmetric under exchange of its operands
+IdHH     == SameOp(Compose(GH, GH), Op(2, MatId(2), 0)) /\ SameOp(Compose(GX, GX), Op(2, MatId(2), 0))
+IdXZanti == MatMul(GX.m, GZ.m, 2) = MatScale(RM1, MatMul(GZ.m, GX.m, 2), 2)
+IdCZsym  == MatMul(GSWAP.m, MatMul(GCZ.m, GSWAP.m, 4), 4) = GCZ.m
+\* the phase shifter is diagonal in the number basis (it cannot move photons) and the beam splitter commutes with
+\* exp(i phi N_total) = PS(phi) x PS(phi): the total photon number is conserved as an operator statement,
+\* not only sector by sector; cascades of splitters and shifters inherit both facts
+IdPSdiag == \A k \in 0..8 : \A r, c \in 1..3 : r # c => GPS(k).m[r][c] = R0
+IdBSNtot == LET tb == [k \in 0..8 |-> GBS(k).m]
+                pp == [k \in {1, 3} |-> MatKron(GPS(k).m, 3, GPS(k).m, 3)]
+            IN \A k \in {1, 3}, j \in 0..8 : MatMul(pp[k], tb[j], 9) = MatMul(tb[j], pp[k], 9)
 \* channels and POVMs are complete
 KrausIds == {"bitflip", "dephase", "ampdamp", "phaseflipY", "unitS", "unitH", "deph3", "loss3",
              "flipXdamp", "corrflip", "unitCX", "flipXdeph3", "loss3Xdamp", "corrflip6", "ctrlshift6"}
@@ -287,7 +298,8 @@ IdentityTable ==
    IdU3RY |-> IdU3RY, IdU3H |-> IdU3H, IdComm |-> IdComm, IdNum |-> IdNum, IdDag |-> IdDag,
    IdCXCX |-> IdCXCX, IdCSCS |-> IdCSCS, IdCZ |-> IdCZ, IdSWAP |-> IdSWAP, IdCXasym |-> IdCXasym,
    IdBSsector |-> IdBSsector, IdBSswap |-> IdBSswap, IdHOM |-> IdHOM, IdBSsym |-> IdBSsym,
-   IdMZI |-> IdMZI, IdMZIHom |-> IdMZIHom, IdKraus |-> IdKraus, IdPovm |-> IdPovm]
+   IdMZI |-> IdMZI, IdMZIHom |-> IdMZIHom, IdHH |-> IdHH, IdXZanti |-> IdXZanti, IdCZsym |-> IdCZsym,
+   IdPSdiag |-> IdPSdiag, IdBSNtot |-> IdBSNtot, IdKraus |-> IdKraus, IdPovm |-> IdPovm]
 FailedIdentities == {n \in DOMAIN IdentityTable : ~IdentityTable[n]}
 GateIdentities == FailedIdentities = {}
 =============================================================================
